@@ -6,7 +6,7 @@ from core import Result
 import proto, gen, implutil
 
 THEOREMS = ['C06_rule', 'C06_length', 'C06_pointwise', 'C06_sound', 'C06_complete', 'C06_ends', 'C06_strict',
-            'C06_antitone', 'C06_rejects_threshold', 'C06_rejects_minN', 'C06_pipeline']
+            'C06_antitone', 'C06_rejects_threshold', 'C06_rejects_minN', 'C06_pipeline', 'C06_filter_fixed_point']
 RULE = ("synthetic tables (n = 0..60; feature values on, one ulp beside and far from the thresholds; NaNs anywhere) x threshold vectors "
         "(grid of [0,1]^4, feature values, out-of-range values) x min_n_cycles 0..8 / negative / partial dicts (defaults), plus tables from "
         "compute_features(burst_method='cycles') on generated signals (kwarg routing), plus antitonicity pairs judged on the implementation; "
